@@ -1319,6 +1319,11 @@ parser! {
     // TODO this entire section
 
     // B.3.1 Expressions
+    // The result is cached because an expression in parentheses is tried at the same position
+    // by more than one alternative (the primary expression of a unary expression and the atom
+    // of the precedence levels). Without the cache the time to reject a syntax error doubles
+    // with each level of parentheses.
+    #[cache]
     pub rule expression() -> ExprKind = precedence!{
       // or_expression
       x:(@) _ tok(TokenType::Or) _ y:@ { ExprKind::compare(CompareOp::Or, x, y) }
